@@ -791,7 +791,10 @@ class _ActionSubCommands(_SubParsersAction):
 
             # Update all subcommand settings
             if subnamespace is not None:
-                cfg[key] = subparser.merge_config(cfg.get(key, Namespace()), subnamespace)
+                subcfg = cfg.get(key)
+                if subcfg is not None and not isinstance(subcfg, Namespace):
+                    raise TypeError(f'Expected settings of subcommand "{key}" to be a nested config: {subcfg!r}')
+                cfg[key] = subparser.merge_config(Namespace() if subcfg is None else subcfg, subnamespace)
 
             # Handle inner subcommands
             if subparser._subparsers is not None:
